@@ -83,6 +83,7 @@ fn item_name(i: &RefItem) -> String {
         RefItem::Mac1 { flip, .. } => format!("MI{}", if flip.is_some() { "!" } else { "" }),
         RefItem::Mac256 { len, flip, .. } => format!("MI256/{len}{}", if flip.is_some() { "!" } else { "" }),
         RefItem::Fp { flip } => format!("FP{}", if flip.is_some() { "!" } else { "" }),
+        RefItem::FpLong { extra } => format!("FP+{extra}"),
     }
 }
 
@@ -845,7 +846,25 @@ fn gen_tail(ch: &mut Choices, creds: &Creds, other: &Creds) -> Vec<RefItem> {
                 let len = if ch.rare(1, 8) { *ch.pick(&[0usize, 4, 8, 12, 15, 17, 18, 22, 30, 33, 36, 64]) } else { *ch.pick(&[32usize, 16, 20, 24, 28]) };
                 v.push(RefItem::Mac256 { creds: c, len, flip })
             }
-            _ => v.push(RefItem::Fp { flip: None }),
+            _ => {
+                // one time in ten the FINGERPRINT is over-long: the right CRC followed by 4..12 more bytes
+                if ch.rare(1, 10) {
+                    v.push(RefItem::FpLong { extra: *ch.pick(&[4usize, 8, 12]) })
+                } else {
+                    v.push(RefItem::Fp { flip: None })
+                }
+            }
+        }
+    }
+    // one time in ten the MESSAGE-INTEGRITY has an irregular length (the parser looks at types only;
+    // for the exposure rule it is an integrity attribute all the same)
+    if ch.rare(1, 10) {
+        for it in v.iter_mut() {
+            if matches!(it, RefItem::Mac1 { .. }) {
+                let l = *ch.pick(&[0usize, 1, 4, 19, 21, 22, 24, 32]);
+                *it = RefItem::Attr { ty: MI, value: ch.bytes(l), pad: 0 };
+                break;
+            }
         }
     }
     if ch.rare(1, 8) {
@@ -931,6 +950,37 @@ pub fn scenario_tailsplice(ctx: &mut Ctx) -> ScResult {
             let pa: Vec<(u16, Vec<u8>)> = after.iter().take(fi + 1).cloned().collect();
             if pa != prefix_exposed {
                 let v = Violation::new("C10", "prefix_unchanged_by_tail_rewrite", "iter_attributes", "replacing the bytes after the first integrity attribute changed the attributes exposed before it".to_string());
+                ev!(ctx, "  !! {}", v.message);
+                return Err(v);
+            }
+        }
+        ctx.st.cases += 1;
+    }
+    // 3. the attacker simply appends attribute-shaped bytes to the signed message without touching
+    // its length field (a stream read that returns more than one message looks the same)
+    for _ in 0..2 {
+        let mut y = m.clone();
+        let extra: Vec<u8> = match ctx.ch.below(4) {
+            0 => vec![0x80, 0x28, 0x00, 0x04, 1, 2, 3, 4],
+            1 => vec![0x80, 0x22, 0x00, 0x04, b'e', b'v', b'i', b'l'],
+            2 => {
+                let mut e = vec![0x00, 0x1c, 0x00, 0x20];
+                e.extend(ctx.ch.bytes(32));
+                e
+            }
+            _ => {
+                let mut e = vec![0x00, 0x06, 0x00, 0x04, b'r', b'o', b'o', b't'];
+                e.extend_from_slice(&[0x80, 0x28, 0x00, 0x04, 9, 9, 9, 9]);
+                e
+            }
+        };
+        y.extend_from_slice(&extra);
+        ctx.st.inc("fault.bytes_appended_after_signed_message");
+        judge_exposure(ctx, &y, &lc)?;
+        if let Some(after) = lib_view("C10", &y)? {
+            let pa: Vec<(u16, Vec<u8>)> = after.iter().take(fi + 1).cloned().collect();
+            if pa != prefix_exposed || after.len() > before.len() {
+                let v = Violation::new("C10", "exposure", "bytes_appended_after_message", format!("{} attribute-shaped bytes appended after a signed {}-byte message (length field untouched): the message was accepted and now exposes {} attributes instead of {}", extra.len(), m.len(), after.len(), before.len()));
                 ev!(ctx, "  !! {}", v.message);
                 return Err(v);
             }
